@@ -269,6 +269,7 @@ func checkC05(R *Run) {
 
 	R.ruleKindTargetAgree()
 	R.ruleSpecialFolder()
+	R.rulePathCountAgree()
 
 	var spec privSpec
 	if err := readSpec("privileges.json", &spec); err != nil {
